@@ -99,6 +99,7 @@ Valid(sc, i) ==
     [] k = "not" -> ~Valid(sc.subs[1], i)
     [] k = "if" -> IF Valid(sc.subs[1], i) THEN Valid(sc.subs[2], i) ELSE Valid(sc.subs[3], i)
     [] k = "ref" -> Valid(sc.subs[1], i)         \* {"$defs": {"d": sub}, "$ref": "#/$defs/d"}
+    [] k = "obj" -> ValidAll(sc.subs, i)         \* several keywords in one schema object
 
 \* ---- the schema space ----
 Leaves ==
@@ -119,7 +120,18 @@ Comp2(sub) == {S(k, 0, "", <<x, y>>) : k \in {"allOf", "anyOf", "oneOf"}, x \in 
 SmallSub == {Leaf("type", 0, "integer"), Leaf("type", 0, "string"), Leaf("minimum", 2, ""), Leaf("const", 0, "a"), Leaf("required", 0, "a")}
 CompIf == {S("if", 0, "", <<x, y, z>>) : x \in Leaves, y \in SmallSub, z \in SmallSub}
 
-Level1 == Leaves \cup Comp1(Leaves) \cup Comp2(Leaves) \cup CompIf
+\* combinator arms that are schema objects with a type and one more keyword (the usual way schemas are written)
+TypedArms ==
+  {S("obj", 0, "", <<Leaf("type", 0, "array"), x>>) :
+     x \in {S("items", 0, "", <<Leaf("type", 0, "string")>>), Leaf("minItems", 1, ""), Leaf("maxItems", 1, ""),
+            S("contains", 0, "", <<Leaf("const", 2, "#num")>>), Leaf("uniqueItems", 0, "")}}
+  \cup {S("obj", 0, "", <<Leaf("type", 0, "object"), x>>) :
+     x \in {Leaf("required", 0, "a"), S("properties", 0, "a", <<Leaf("type", 0, "integer")>>), Leaf("maxProperties", 1, ""),
+            S("additionalProperties", 0, "", <<Leaf("type", 0, "string")>>)}}
+  \cup {S("obj", 0, "", <<Leaf("type", 0, "number"), x>>) : x \in {Leaf("minimum", 2, ""), Leaf("multipleOf", 4, "")}}
+CompTyped == {S(k, 0, "", <<x, y>>) : k \in {"allOf", "anyOf", "oneOf"}, x \in TypedArms, y \in TypedArms}
+
+Level1 == Leaves \cup Comp1(Leaves) \cup Comp2(Leaves) \cup CompIf \cup CompTyped
 
 VARIABLES sch, acc
 vars == <<sch, acc>>
